@@ -44,6 +44,30 @@ pub(crate) struct SyscallState {
     pipe_contents: HashMap<u64, Vec<u8>>,
 }
 
+#[cfg(ax_verif)]
+impl SyscallState {
+    /// Verification hook: (brk_start, brk_length)
+    pub fn verif_brk(&self) -> (u64, u64) {
+        (self.brk_start, self.brk_length)
+    }
+
+    /// Verification hook: (write end -> read end, read end -> write end, read end -> buffered bytes), sorted by key
+    #[allow(clippy::type_complexity)]
+    pub fn verif_pipes(&self) -> (Vec<(u64, u64)>, Vec<(u64, u64)>, Vec<(u64, Vec<u8>)>) {
+        let mut w: Vec<(u64, u64)> = self.pipes_write_ends.iter().map(|(a, b)| (*a, *b)).collect();
+        let mut r: Vec<(u64, u64)> = self.pipes_read_ends.iter().map(|(a, b)| (*a, *b)).collect();
+        let mut c: Vec<(u64, Vec<u8>)> = self
+            .pipe_contents
+            .iter()
+            .map(|(a, b)| (*a, b.clone()))
+            .collect();
+        w.sort();
+        r.sort();
+        c.sort();
+        (w, r, c)
+    }
+}
+
 impl TryFrom<u16> for Syscall {
     type Error = AxError;
 
